@@ -1058,3 +1058,287 @@ Proof.
     rewrite N.eqb_refl. cbn [andb]. destruct (is_address_const0 v) eqn:E; [|reflexivity].
     apply lw_is_const0 in E. contradiction.
 Qed.
+
+(* ================================================================ Part 6: panic freedom *)
+
+Definition np {A} (r : res A) : Prop := r <> Panic /\ r <> OutOfFuel.
+
+Lemma lw_np_ok {A} (a : A) : np (Ok a). Proof. split; discriminate. Qed.
+Lemma lw_np_err {A} e : np (@Err A e). Proof. split; discriminate. Qed.
+Lemma lw_np_bind {A B} (r : res A) (f : A -> res B) :
+  np r -> (forall a, r = Ok a -> np (f a)) -> np (bind r f).
+Proof. intros [H1 H2] Hf. destruct r; cbn [bind]; try contradiction; [now apply Hf|apply lw_np_err]. Qed.
+
+Lemma lw_np_write_udata be v size : np (write_udata be v size).
+Proof.
+  unfold write_udata.
+  repeat match goal with |- np (if ?c then _ else _) => destruct c end; try apply lw_np_ok; apply lw_np_err.
+Qed.
+
+Lemma lw_np_write_address be a size : np (write_address be a size).
+Proof. destruct a; cbn [write_address]; [apply lw_np_write_udata|apply lw_np_err]. Qed.
+
+Lemma lw_np_write_uleb v : v < 2 ^ 64 -> np (write_uleb128 v).
+Proof. intros Hv. destruct (lw_write_uleb_total v Hv) as [bs ->]. apply lw_np_ok. Qed.
+
+Lemma lw_np_opt_expression loc be version d : N.of_nat (length d) < 2 ^ 64 -> np (opt_expression loc be version d).
+Proof.
+  intros Hd. unfold opt_expression, write_expression. destruct loc; [|apply lw_np_ok].
+  apply lw_np_bind; [|intros; apply lw_np_ok].
+  destruct (version <=? 4); [apply lw_np_write_udata|now apply lw_np_write_uleb].
+Qed.
+
+Ltac np_step :=
+  first [ apply lw_np_ok | apply lw_np_err | apply lw_np_write_udata | apply lw_np_write_address
+        | (apply lw_np_write_uleb; tauto) | (apply lw_np_opt_expression; assumption)
+        | (apply lw_np_bind; [|intros ? ?]) ].
+
+Lemma lw_np_entry_v5 loc be version asz x : wf loc x -> np (write_entry_v5 loc be version asz x).
+Proof.
+  intros [Hw [Hd _]]. destruct x as [a|b e d|b e d|b len d|d]; cbn [write_entry_v5 wloc_wf data_of] in *;
+    repeat np_step.
+Qed.
+
+Lemma lw_np_list_v5 loc be version asz l : Forall (wf loc) l -> np (write_list_v5 loc be version asz l).
+Proof.
+  induction 1 as [|x r Hx Hr IH]; cbn [write_list_v5]; [apply lw_np_ok|].
+  apply lw_np_bind; [now apply lw_np_entry_v5|intros ? _]. apply lw_np_bind; [exact IH|intros ? _; apply lw_np_ok].
+Qed.
+
+Lemma lw_np_tbl_gen f : forall tbl pos, Forall (fun l => np (f l)) tbl -> np (tbl_gen f pos tbl).
+Proof.
+  induction tbl as [|l r IH]; intros pos H; cbn [tbl_gen]; [apply lw_np_ok|].
+  inversion H; subst. apply lw_np_bind; [assumption|intros ? _].
+  apply lw_np_bind; [now apply IH|intros [? ?] _; apply lw_np_ok].
+Qed.
+
+Lemma lw_np_initial_length fmt64 be len : np (write_initial_length fmt64 be len).
+Proof.
+  unfold write_initial_length. destruct (negb fmt64 && (4294967280 <=? len) && (len <=? 4294967295)); [apply lw_np_err|].
+  apply lw_np_bind; [apply lw_np_write_udata|intros; apply lw_np_ok].
+Qed.
+
+Lemma lw_np_tbl_v5 loc be fmt64 version asz start tbl :
+  Forall (Forall (wf loc)) tbl -> np (write_tbl_v5 loc be fmt64 version asz start tbl).
+Proof.
+  intros H. unfold write_tbl_v5. destruct (negb (version =? 5)); [apply lw_np_err|].
+  rewrite lw_lists_v5_gen. apply lw_np_bind.
+  - apply lw_np_tbl_gen. eapply Forall_impl; [|exact H]. intros l Hl. now apply lw_np_list_v5.
+  - intros [body offs] _. apply lw_np_bind; [apply lw_np_initial_length|intros; apply lw_np_ok].
+Qed.
+
+(* the inputs on which the pre-v5 writers cannot panic: release builds, or a sane address size and no
+   StartLength sum that overflows the Rust integer type *)
+Definition panic_free_input (dbg : bool) (asz : N) (l : list wloc) : Prop :=
+  dbg = false \/ (1 <= asz <= 8 /\ Forall (fun x => sum_fits x = true) l).
+
+Lemma lw_np_ones_sized dbg asz : dbg = false \/ 1 <= asz <= 8 -> np (ones_sized dbg asz).
+Proof.
+  intros [-> | H].
+  - unfold ones_sized, chk_mul, chk_sub.
+    destruct (asz * 8 <? 2 ^ 8); cbn [bind];
+      match goal with |- np (bind (if ?c then _ else _) _) => destruct c end; cbn [bind];
+      match goal with |- np (if ?c then _ else _) => destruct c end; apply lw_np_ok.
+  - assert (Hc : asz = 1 \/ asz = 2 \/ asz = 3 \/ asz = 4 \/ asz = 5 \/ asz = 6 \/ asz = 7 \/ asz = 8) by lia.
+    destruct Hc as [-> | [-> | [-> | [-> | [-> | [-> | [-> | ->]]]]]]]; destruct dbg; vm_compute; split; discriminate.
+Qed.
+
+Lemma lw_np_sle dbg b len : dbg = false \/ sum_fits (LStartLength b len []) = true -> np (start_length_end dbg b len).
+Proof.
+  intros H. destruct b as [v|s z]; cbn [start_length_end sum_fits] in *.
+  - unfold chk_add. destruct (v + len <? 2 ^ 64) eqn:E; cbn [bind]; [apply lw_np_ok|].
+    destruct H as [-> | H]; [apply lw_np_ok|discriminate].
+  - unfold chk_s. change (in_signed 64 (z + to_i64 len)) with (in_i64 (z + to_i64 len)).
+    destruct (in_i64 (z + to_i64 len)) eqn:E; cbn [bind]; [apply lw_np_ok|].
+    destruct H as [-> | H]; [apply lw_np_ok|discriminate].
+Qed.
+
+Lemma lw_np_list_v4 dbg loc be version asz : forall l hb,
+  Forall (wf loc) l -> panic_free_input dbg asz l -> np (write_list_v4 dbg loc be version asz hb l).
+Proof.
+  induction l as [|x r IH]; intros hb Hwf Hpf; cbn [write_list_v4].
+  - repeat np_step.
+  - inversion Hwf as [|? ? [Hw [Hd _]] Hr]; subst.
+    assert (Hpf' : panic_free_input dbg asz r).
+    { destruct Hpf as [-> | [Ha Hf]]; [now left|right]. inversion Hf; subst. auto. }
+    assert (Hone : dbg = false \/ 1 <= asz <= 8) by (destruct Hpf as [-> | [Ha _]]; auto).
+    destruct x as [a|b e d|b e d|b len d|d]; cbn [wloc_wf data_of] in *.
+    + apply lw_np_bind; [now apply lw_np_ones_sized|intros ? _]. repeat np_step. now apply IH.
+    + destruct (b =? e); [apply lw_np_err|]. destruct (negb hb); [apply lw_np_err|]. repeat np_step. now apply IH.
+    + destruct (addr_eqb b e); [apply lw_np_err|]. destruct hb; [apply lw_np_err|]. repeat np_step. now apply IH.
+    + apply lw_np_bind.
+      * apply lw_np_sle. destruct Hpf as [-> | [_ Hf]]; [now left|right]. inversion Hf as [|? ? Hx _]; subst.
+        destruct b; exact Hx.
+      * intros e' _. destruct (addr_eqb b e'); [apply lw_np_err|]. destruct hb; [apply lw_np_err|].
+        repeat np_step. now apply IH.
+    + apply lw_np_err.
+Qed.
+
+Lemma lw_np_tbl_v4 dbg loc be version asz hb start tbl :
+  Forall (Forall (wf loc)) tbl -> Forall (panic_free_input dbg asz) tbl ->
+  np (write_tbl_v4 dbg loc be version asz hb start tbl).
+Proof.
+  intros Hwf Hpf. rewrite lw_tbl_v4_gen. apply lw_np_tbl_gen.
+  rewrite Forall_forall in *. intros l Hl. apply lw_np_list_v4; auto.
+Qed.
+
+Lemma lw_np_table_write dbg loc be fmt64 version asz hb start tbl :
+  Forall (Forall (wf loc)) tbl -> Forall (panic_free_input dbg asz) tbl ->
+  np (table_write dbg loc be fmt64 version asz hb start tbl).
+Proof.
+  intros Hwf Hpf. unfold table_write. destruct tbl as [|l r]; [apply lw_np_ok|].
+  destruct ((2 <=? version) && (version <=? 4)); [now apply lw_np_tbl_v4|].
+  destruct (version =? 5); [now apply lw_np_tbl_v5|apply lw_np_err].
+Qed.
+
+Lemma lw_np_root_attrs be asz attrs : np (root_attrs_write be asz attrs).
+Proof.
+  induction attrs as [|[n v] r IH]; cbn [root_attrs_write]; [apply lw_np_ok|].
+  destruct v; try exact IH. apply lw_np_bind; [apply lw_np_write_address|intros; exact IH].
+Qed.
+
+Lemma lw_wf_map_range rtbl :
+  Forall (Forall wloc_wf) (map (map loc_of_range) rtbl) -> Forall (Forall (wf false)) (map (map loc_of_range) rtbl).
+Proof.
+  intros H. rewrite Forall_forall in *. intros l Hl. specialize (H l Hl).
+  apply in_map_iff in Hl. destruct Hl as [rl [<- _]].
+  rewrite Forall_forall in *. intros x Hx. specialize (H x Hx).
+  apply in_map_iff in Hx. destruct Hx as [r [<- _]]. now apply lw_wf_range.
+Qed.
+
+Lemma lw_np_unit dbg be fmt64 version asz attrs rstart lstart rtbl ltbl :
+  Forall (Forall wloc_wf) (map (map loc_of_range) rtbl) -> Forall (Forall (wf true)) ltbl ->
+  Forall (panic_free_input dbg asz) (map (map loc_of_range) rtbl) -> Forall (panic_free_input dbg asz) ltbl ->
+  np (unit_write_lists dbg be fmt64 version asz attrs rstart lstart rtbl ltbl).
+Proof.
+  intros Hr Hl Hpr Hpl. unfold unit_write_lists.
+  destruct (negb ((2 <=? version) && (version <=? 5))); [apply lw_np_err|].
+  apply lw_np_bind; [apply lw_np_table_write; [now apply lw_wf_map_range|assumption]|intros ? _].
+  apply lw_np_bind; [now apply lw_np_table_write|intros ? _].
+  apply lw_np_bind; [apply lw_np_root_attrs|intros; apply lw_np_ok].
+Qed.
+
+(* ================================================================ Part 7: RangeListTable::write / LocationListTable::write / Unit::write *)
+
+Lemma lw_table_read_v5 dbg dbg' loc be fmt64 asz hb start tbl out offs (sec0 : list byte) :
+  table_write dbg loc be fmt64 5 asz hb start tbl = Ok (out, offs) ->
+  N.of_nat (length sec0) = start -> Forall (Forall (wf loc)) tbl ->
+  length offs = length tbl /\
+  forall i l, nth_error tbl i = Some l ->
+    exists o es rest, nth_error offs i = Some o /\ ents_of l = Some es /\
+      dec5 dbg' loc be asz (at_offset o (sec0 ++ out)) = Ok (es, rest).
+Proof.
+  intros H Hs Hwf. destruct tbl as [|l0 r].
+  - cbn [table_write] in H. inversion H; subst. split; [reflexivity|]. intros [|i] l Hl; discriminate Hl.
+  - unfold table_write in H. change ((2 <=? 5) && (5 <=? 4)) with false in H. change (5 =? 5) with true in H. cbv iota in H.
+    eapply lw_write_read_v5; eauto.
+Qed.
+
+Lemma lw_table_read_v4 dbg dbg' loc be fmt64 version asz hb base start tbl out offs (sec0 : list byte) :
+  table_write dbg loc be fmt64 version asz hb start tbl = Ok (out, offs) ->
+  2 <= version <= 4 ->
+  N.of_nat (length sec0) = start -> Forall (Forall (wf loc)) tbl -> (hb = false -> base = 0) ->
+  length offs = length tbl /\
+  forall i l, nth_error tbl i = Some l -> ~ marker_clash asz l ->
+    exists o ps es rest, nth_error offs i = Some o /\ ents_of l = Some es /\
+      dec4 dbg' loc be asz (at_offset o (sec0 ++ out)) = Ok (ps, rest) /\
+      resolve asz base ps = resolve asz base es.
+Proof.
+  intros H Hv Hs Hwf Hb. destruct tbl as [|l0 r].
+  - cbn [table_write] in H. inversion H; subst. split; [reflexivity|]. intros [|i] l Hl; discriminate Hl.
+  - unfold table_write in H. destruct ((2 <=? version) && (version <=? 4)) eqn:E; [|lia].
+    eapply lw_write_read_v4; eauto. lia.
+Qed.
+
+Lemma lw_meaning_rng asz base (l : list wrange) es :
+  ents_of (map loc_of_range l) = Some es -> meaning_rng asz base l = Some (map fst (resolve asz base es)).
+Proof. intros H. unfold meaning_rng. rewrite H. reflexivity. Qed.
+
+Lemma lw_meaning_loc asz base (l : list wloc) es :
+  ents_of l = Some es -> meaning_loc asz base l = Some (resolve asz base es).
+Proof. intros H. unfold meaning_loc. rewrite H. reflexivity. Qed.
+
+Definition unit_wf (rtbl : list (list wrange)) (ltbl : list (list wloc)) : Prop :=
+  Forall (Forall wloc_wf) (map (map loc_of_range) rtbl) /\ Forall (Forall (wf true)) ltbl.
+
+(* Unit::write, DWARF 5: every added list is found at the offset recorded for its id and decodes to exactly its
+   entries; hence it means, relative to ANY base address, what the written list means *)
+Lemma lw_unit_read_v5 dbg dbg' be fmt64 asz attrs rstart lstart rtbl ltbl rb ro lb lo (rsec lsec : list byte) base :
+  unit_write_lists dbg be fmt64 5 asz attrs rstart lstart rtbl ltbl = Ok ((rb, ro), (lb, lo)) ->
+  N.of_nat (length rsec) = rstart -> N.of_nat (length lsec) = lstart -> unit_wf rtbl ltbl ->
+  (forall i l, nth_error rtbl i = Some l ->
+     exists o es rest, nth_error ro i = Some o /\
+       dec5 dbg' false be asz (at_offset o (rsec ++ rb)) = Ok (es, rest) /\
+       ents_of (map loc_of_range l) = Some es /\
+       meaning_rng asz base l = Some (map fst (resolve asz base es))) /\
+  (forall i l, nth_error ltbl i = Some l ->
+     exists o es rest, nth_error lo i = Some o /\
+       dec5 dbg' true be asz (at_offset o (lsec ++ lb)) = Ok (es, rest) /\
+       ents_of l = Some es /\
+       meaning_loc asz base l = Some (resolve asz base es)).
+Proof.
+  unfold unit_write_lists. change (negb ((2 <=? 5) && (5 <=? 5))) with false. cbv iota.
+  intros H Hrs Hls [Hwr Hwl]. bind_ok H. bind_ok H. bind_ok H. inversion H; subst. split.
+  - intros i l Hl.
+    destruct (lw_table_read_v5 _ dbg' _ _ _ _ _ _ _ _ _ rsec E eq_refl (lw_wf_map_range _ Hwr)) as [_ Hn].
+    destruct (Hn i (map loc_of_range l) (map_nth_error _ _ _ Hl)) as [o [es [rest [Ho [He Hd]]]]].
+    exists o, es, rest. repeat split; try assumption. now apply lw_meaning_rng.
+  - intros i l Hl.
+    destruct (lw_table_read_v5 _ dbg' _ _ _ _ _ _ _ _ _ lsec E0 eq_refl Hwl) as [_ Hn].
+    destruct (Hn i l Hl) as [o [es [rest [Ho [He Hd]]]]].
+    exists o, es, rest. repeat split; try assumption. now apply lw_meaning_loc.
+Qed.
+
+(* Unit::write, DWARF 2-4: outside the marker-clash class every added list reads back, through the unit's base
+   address as the reader derives it from the root DIE, as what the written list means *)
+Lemma lw_unit_read_v4 dbg dbg' be fmt64 version asz attrs rstart lstart rtbl ltbl rb ro lb lo (rsec lsec : list byte) :
+  unit_write_lists dbg be fmt64 version asz attrs rstart lstart rtbl ltbl = Ok ((rb, ro), (lb, lo)) ->
+  2 <= version <= 4 ->
+  N.of_nat (length rsec) = rstart -> N.of_nat (length lsec) = lstart -> unit_wf rtbl ltbl ->
+  (forall i l, nth_error rtbl i = Some l -> ~ marker_clash asz (map loc_of_range l) ->
+     exists o ps rest, nth_error ro i = Some o /\
+       dec4 dbg' false be asz (at_offset o (rsec ++ rb)) = Ok (ps, rest) /\
+       meaning_rng asz (unit_base attrs) l = Some (map fst (resolve asz (unit_base attrs) ps))) /\
+  (forall i l, nth_error ltbl i = Some l -> ~ marker_clash asz l ->
+     exists o ps rest, nth_error lo i = Some o /\
+       dec4 dbg' true be asz (at_offset o (lsec ++ lb)) = Ok (ps, rest) /\
+       meaning_loc asz (unit_base attrs) l = Some (resolve asz (unit_base attrs) ps)).
+Proof.
+  unfold unit_write_lists. intros H Hv Hrs Hls [Hwr Hwl]. set (base := unit_base attrs).
+  destruct (negb ((2 <=? version) && (version <=? 5))); [discriminate|].
+  bind_ok H. bind_ok H. bind_ok H. inversion H; subst.
+  pose proof (lw_base_from_root attrs) as Hb. fold base in Hb. split.
+  - intros i l Hl Hc.
+    destruct (lw_table_read_v4 _ dbg' _ _ _ _ _ _ base _ _ _ _ rsec E Hv eq_refl (lw_wf_map_range _ Hwr) Hb) as [_ Hn].
+    destruct (Hn i (map loc_of_range l) (map_nth_error _ _ _ Hl) Hc) as [o [ps [es [rest [Ho [He [Hd Hr]]]]]]].
+    exists o, ps, rest. repeat split; try assumption. rewrite Hr. now apply lw_meaning_rng.
+  - intros i l Hl Hc.
+    destruct (lw_table_read_v4 _ dbg' _ _ _ _ _ _ base _ _ _ _ lsec E0 Hv eq_refl Hwl Hb) as [_ Hn].
+    destruct (Hn i l Hl Hc) as [o [ps [es [rest [Ho [He [Hd Hr]]]]]]].
+    exists o, ps, rest. repeat split; try assumption. rewrite Hr. now apply lw_meaning_loc.
+Qed.
+
+(* rejects, through Unit::write with one list *)
+Lemma lw_rejects_unit_rng dbg be fmt64 version asz attrs rstart lstart (l : list wrange) e :
+  size_ok asz -> 2 <= version <= 4 -> Forall wloc_wf (map loc_of_range l) ->
+  rejected (have_base_address attrs) (map loc_of_range l) = Some e ->
+  plain_until_reject asz (have_base_address attrs) (map loc_of_range l) = true ->
+  unit_write_lists dbg be fmt64 version asz attrs rstart lstart [l] [] = Err e.
+Proof.
+  intros Hs Hv Hwf Hr Hp. unfold unit_write_lists.
+  destruct (negb ((2 <=? version) && (version <=? 5))) eqn:E; [lia|].
+  cbn [map table_write]. destruct ((2 <=? version) && (version <=? 4)) eqn:E4; [|lia].
+  cbn [write_tbl_v4]. rewrite (lw_rejects dbg false be version asz Hs ltac:(lia) _ _ _ Hwf Hr Hp). reflexivity.
+Qed.
+
+Lemma lw_rejects_unit_loc dbg be fmt64 version asz attrs rstart lstart (l : list wloc) e :
+  size_ok asz -> 2 <= version <= 4 -> Forall wloc_wf l ->
+  rejected (have_base_address attrs) l = Some e ->
+  plain_until_reject asz (have_base_address attrs) l = true ->
+  unit_write_lists dbg be fmt64 version asz attrs rstart lstart [] [l] = Err e.
+Proof.
+  intros Hs Hv Hwf Hr Hp. unfold unit_write_lists.
+  destruct (negb ((2 <=? version) && (version <=? 5))) eqn:E; [lia|].
+  cbn [map table_write bind]. destruct ((2 <=? version) && (version <=? 4)) eqn:E4; [|lia].
+  cbn [write_tbl_v4]. rewrite (lw_rejects dbg true be version asz Hs ltac:(lia) _ _ _ Hwf Hr Hp). reflexivity.
+Qed.
